@@ -4,6 +4,8 @@ import (
 	"bytes"
 	"encoding/hex"
 	"fmt"
+	"github.com/ipfs/go-cid"
+	mh "github.com/multiformats/go-multihash"
 	"strings"
 
 	"github.com/ipld/go-ipld-prime/codec/dagcbor"
@@ -89,7 +91,13 @@ func c02Check(c *core.Ctx, v core.Val, orders []core.Val, r *core.Rand, modelEnc
 			c.Fail("C02/encodedlength-mismatch", core.Replay{Kind: "oracle", Case: "cbor.enc " + o.Term(), Impl: fmt.Sprint(obs.encLen), Expected: fmt.Sprint(len(obs.hex) / 2)})
 		}
 		want := v.Sorted(core.LessCbor).Term()
-		if obs.dec != want {
+		if v.Depth() > 1024 {
+			// beyond the decoder's default nesting limit the encoding is still the canonical one (compared with the model
+			// above); decoding it back is refused by the limit (C10), which is the only acceptable way not to round-trip
+			if !strings.Contains(obs.dec, "depth") {
+				c.Fail("C02/roundtrip", core.Replay{Kind: "oracle", Case: "cbor.enc " + o.Term(), Impl: obs.dec, Expected: "refused by the nesting limit", Detail: "a value nested deeper than the decoder's limit"})
+			}
+		} else if obs.dec != want {
 			c.Fail("C02/roundtrip", core.Replay{Kind: "oracle", Case: "cbor.enc " + o.Term(), Impl: obs.dec, Expected: want, Detail: "Decode(Encode(v)) is not v in canonical order"})
 		}
 	}
@@ -204,6 +212,23 @@ func c02Boundary() []core.Val {
 			}
 			vals = append(vals, m)
 		}
+	}
+	// nesting around the decoder's default depth limit (the encoder has none): 1022 … 1026 levels around a scalar
+	for _, depth := range []int{1022, 1023, 1024, 1025, 1026} {
+		v := core.Int(7)
+		for i := 0; i < depth; i++ {
+			if i%2 == 0 {
+				v = core.List(v)
+			} else {
+				v = core.Map(core.KV{K: []byte("k"), V: v})
+			}
+		}
+		vals = append(vals, v)
+	}
+	// long links: identity multihashes of 120 … 300 bytes (binary CID around 128 and 256 bytes)
+	for _, dl := range []int{120, 123, 124, 125, 126, 200, 251, 252, 253, 300} {
+		m, _ := mh.Encode(bytes.Repeat([]byte{0xab}, dl), mh.IDENTITY)
+		vals = append(vals, core.Link(cid.NewCidV1(0x55, m).Bytes()), core.List(core.Link(cid.NewCidV1(0x71, m).Bytes()), core.Int(1)))
 	}
 	// equal-length multi-byte keys differing late, prefix keys, empty key
 	vals = append(vals, core.Map(core.KV{K: []byte("ab"), V: core.Int(1)}, core.KV{K: []byte("aa"), V: core.Int(2)},
